@@ -50,13 +50,14 @@ func drawC09(t *rapid.T) *c09Scenario {
 	n := rapid.IntRange(0, 4).Draw(t, "nPods")
 	for i := 0; i < n; i++ {
 		p := genC10Pod(t)
-		p.Terminal = false
+		// a pod that ran to completion stays on the node (nothing evicts it); its volume may still be attached
+		p.Terminal = dpct(t, 15, "terminal")
 		s.Pods = append(s.Pods, p)
 		if rapid.IntRange(0, 2).Draw(t, "hasVolume") == 0 {
 			s.VolumeOf = append(s.VolumeOf, i)
 		}
 	}
-	kinds := []string{"node", "node", "node", "node", "claim", "claim", "claim", "evict", "evict", "evict", "kubelet", "kubelet", "detach", "clock", "clock", "restart", "notready", "ready", "delete"}
+	kinds := []string{"node", "node", "node", "node", "claim", "claim", "claim", "evict", "evict", "evict", "kubelet", "kubelet", "detach", "clock", "clock", "restart", "notready", "ready", "delete", "progress", "progress", "progress", "progress"}
 	minOps := rapid.IntRange(6, 30).Draw(t, "minOps")
 	s.Ops = rapid.SliceOfN(rapid.Custom(func(t *rapid.T) c09Op {
 		return c09Op{Kind: rapid.SampledFrom(kinds).Draw(t, "kind"), Arg: rapid.IntRange(0, 7).Draw(t, "arg")}
@@ -339,8 +340,24 @@ func runC09(s *c09Scenario, faultIdx, faultKind int) *c09Run {
 	if s.Stage != "unlaunched" {
 		startDelete()
 	}
-	for _, op := range s.Ops {
+	var doOp func(op c09Op)
+	doOp = func(op c09Op) {
 		switch op.Kind {
+		case "progress":
+			// one round of everything that moves a termination forward: node reconcile, the eviction queue on every queued
+			// pod, the kubelet finishing every terminating pod, a few seconds, the NodeClaim reconcile
+			doOp(c09Op{Kind: "node"})
+			for i := range pods {
+				doOp(c09Op{Kind: "evict", Arg: i})
+			}
+			for _, p := range pods {
+				if pod := getPod(p.name); pod != nil && pod.DeletionTimestamp != nil && p.spec.Terminating == 0 {
+					w.FinishPod(client.ObjectKeyFromObject(pod))
+				}
+			}
+			doOp(c09Op{Kind: "clock", Arg: 0})
+			doOp(c09Op{Kind: "clock", Arg: 0})
+			doOp(c09Op{Kind: "claim"})
 		case "delete":
 			startDelete()
 		case "node":
@@ -407,12 +424,21 @@ func runC09(s *c09Scenario, faultIdx, faultKind int) *c09Run {
 			}
 		}
 	}
+	for _, op := range s.Ops {
+		doOp(op)
+	}
 	// terminal check: a NodeClaim that disappeared from the API has no live instance
 	if w.GetNodeClaim(claimName) == nil {
 		r.finished = true
 		if instanceLive() && !lostInRestart {
 			violate("terminal:orphaned-instance", "the NodeClaim is gone from the API but the provider still has its instance %v", providerIDs(w, claimUID))
 		}
+	}
+	if os.Getenv("VERIF_DBG") != "" && faultIdx == 0 {
+		for _, cl := range w.CallsSnapshot() {
+			fmt.Println("C09DBG", cl.String())
+		}
+		fmt.Println("C09DBG finished", r.finished)
 	}
 	return r
 }
@@ -441,6 +467,14 @@ func execC09(s *c09Scenario, c *ev.Ctx) {
 	c.Class("stage:" + s.Stage)
 	c.ClassIf(base.finished, "deletion_completed")
 	c.ClassIf(base.drainable, "drainable_pod")
+	terminalWithVolume := false
+	for _, vi := range s.VolumeOf {
+		if vi < len(s.Pods) && s.Pods[vi].Terminal && !s.Pods[vi].Tolerates && !s.Pods[vi].Static {
+			terminalWithVolume = true
+		}
+	}
+	c.ClassIf(terminalWithVolume, "completed_pod_with_attached_volume")
+	c.ClassIf(terminalWithVolume && base.finished, "completed_pod_with_attached_volume:deletion_completed")
 	c.NTIf(base.drainable && (base.calls > 0 || base.disturbed))
 	c.Sample(map[string]any{"stage": s.Stage, "tgp": s.TGP, "pods": len(s.Pods), "ops": len(s.Ops), "fault_points": base.calls, "finished": base.finished})
 }
